@@ -189,7 +189,50 @@ func genStraightBranch(r *sim.Rand, flags uint8) []sim.Op {
 		}
 		return []sim.Op{{K: "ref", S: name, N: []int64{l}}, {K: "label", N: []int64{l}}}
 	}
-	switch r.Intn(7) {
+	switch r.Intn(9) {
+	case 7, 8:
+		// load, compare with an immediate, branch on an outcome the two values rule out
+		wide := flags&0x20 == 0
+		v := int64(sim.PickInt(r, 0, 1, 0x7F, 0x80, 0xFF, r.Intn(256)))
+		ld, cp := "LDA_imm8_b", "CMP_imm8_b"
+		if wide {
+			v = int64(sim.PickInt(r, 0, 1, 0x7FFF, 0x8000, 0xFFFF, 0x00FF, 0x0100, r.Intn(65536)))
+			ld, cp = "LDA_imm16_w", "CMP_imm16_w"
+		} else if flags&0x10 != 0 && r.Chance(1, 3) {
+			ld, cp = "LDY_imm8_b", "CPY_imm8_b"
+		}
+		w := v
+		switch r.Intn(3) {
+		case 1:
+			w = v + int64(sim.PickInt(r, 1, 1, 2, 0x80))
+		case 2:
+			w = v - int64(sim.PickInt(r, 1, 1, 2, 0x80))
+		}
+		max := int64(0xFF)
+		if wide {
+			max = 0xFFFF
+		}
+		if w < 0 || w > max {
+			w = v
+		}
+		out := []sim.Op{{K: "ins", S: ld, N: []int64{v}}, {K: "ins", S: cp, N: []int64{w}}}
+		switch {
+		case v == w: // Z=1 C=1
+			if r.Chance(1, 2) {
+				return append(out, imm("BNE_imm8"))
+			}
+			return append(out, ref("BCC")...)
+		case v > w: // Z=0 C=1
+			if r.Chance(1, 2) {
+				return append(out, imm("BEQ_imm8"))
+			}
+			return append(out, ref("BCC")...)
+		default: // Z=0 C=0
+			if r.Chance(1, 2) {
+				return append(out, imm("BEQ_imm8"))
+			}
+			return append(out, ref("BCS")...)
+		}
 	case 0:
 		return []sim.Op{{K: "ins", S: sim.PickStr(r, "BNE_imm8", "BEQ_imm8", "BPL_imm8", "BRA_imm8"), N: []int64{0}}}
 	case 1:
@@ -272,7 +315,37 @@ func genStraightBranch(r *sim.Rand, flags uint8) []sim.Op {
 
 // c07known is what the harness knows about the CPU's condition flags at an instruction
 // boundary: bit set in Mask = the flag's value is fixed to the bit in Val (N $80, Z $02, C $01).
-type c07known struct{ Mask, Val byte }
+type c07known struct {
+	Mask, Val byte
+	// register values fixed by an immediate load that is still in force (A, Y)
+	A, Y c07reg
+}
+
+type c07reg struct {
+	ok   bool
+	v    uint16
+	wide bool
+}
+
+// compare: the flags CMP/CPY #m leave for a known register value
+func (k *c07known) compare(r c07reg, m uint16, wide bool) {
+	if !r.ok || r.wide != wide {
+		k.Mask &^= 0x83
+		return
+	}
+	var val byte
+	if r.v >= m {
+		val |= 0x01
+	}
+	if r.v == m {
+		val |= 0x02
+	}
+	d := r.v - m
+	if (wide && d&0x8000 != 0) || (!wide && d&0x80 != 0) {
+		val |= 0x80
+	}
+	k.set(0x83, val)
+}
 
 func (k *c07known) set(bits, val byte) { k.Mask |= bits; k.Val = k.Val&^bits | val&bits }
 
@@ -441,10 +514,18 @@ func (c07) Exec(sc *sim.Scenario, env *sim.Env) *sim.Violation {
 		// what the accepted call fixes about N, Z and C (anything else: unknown afterwards)
 		switch op.K {
 		case "label", "comment", "setbase":
-		case "rep":
-			known.set(byte(op.Arg(0))&0x83, 0)
-		case "sep":
-			known.set(byte(op.Arg(0))&0x83, 0xFF)
+		case "rep", "sep":
+			if op.K == "rep" {
+				known.set(byte(op.Arg(0))&0x83, 0)
+			} else {
+				known.set(byte(op.Arg(0))&0x83, 0xFF)
+			}
+			if op.Arg(0)&0x20 != 0 {
+				known.A.ok = false // the accumulator changes width
+			}
+			if op.Arg(0)&0x10 != 0 {
+				known.Y.ok = false
+			}
 		case "ref":
 			usedRefs = true // a branch that falls through changes no flag
 		case "ins":
@@ -452,8 +533,26 @@ func (c07) Exec(sc *sim.Scenario, env *sim.Env) *sim.Violation {
 			switch op.S {
 			case "LDA_imm8_b", "LDX_imm8_b", "LDY_imm8_b":
 				known.set(0x82, map[bool]byte{true: 0x80}[v&0x80 != 0]|map[bool]byte{true: 0x02}[v&0xFF == 0])
+				switch op.S[:3] {
+				case "LDA":
+					known.A = c07reg{true, uint16(v & 0xFF), false}
+				case "LDY":
+					known.Y = c07reg{true, uint16(v & 0xFF), false}
+				}
 			case "LDA_imm16_w", "LDX_imm16_w", "LDY_imm16_w":
 				known.set(0x82, map[bool]byte{true: 0x80}[v&0x8000 != 0]|map[bool]byte{true: 0x02}[v&0xFFFF == 0])
+				switch op.S[:3] {
+				case "LDA":
+					known.A = c07reg{true, uint16(v), true}
+				case "LDY":
+					known.Y = c07reg{true, uint16(v), true}
+				}
+			case "CMP_imm8_b":
+				known.compare(known.A, uint16(v&0xFF), false)
+			case "CMP_imm16_w":
+				known.compare(known.A, uint16(v), true)
+			case "CPY_imm8_b":
+				known.compare(known.Y, uint16(v&0xFF), false)
 			case "CLC":
 				known.set(0x01, 0)
 			case "SEC":
